@@ -255,3 +255,77 @@ func (c *Ctx) knownCond(f *core.Func, cond ast.Expr) (val, known bool) {
 	}
 	return false, false
 }
+
+// nonNegFields: integer fields of the module's structs that are assigned at
+// least once and only ever a length, a non-negative constant, or a local that
+// holds a copy of the very field (`base := p.base; …; p.base = base`).  Their
+// zero value is non-negative too, so they are non-negative wherever read.
+func (c *Ctx) nonNegFields() map[*types.Var]bool {
+	writes := map[*types.Var]int{}
+	bad := map[*types.Var]bool{}
+	for _, f := range c.P.Funcs {
+		info := f.Info()
+		okRHS := func(fv *types.Var, r ast.Expr) bool {
+			r = ast.Unparen(r)
+			if tv, has := info.Types[r]; has && tv.Value != nil {
+				return constant.Sign(tv.Value) >= 0
+			}
+			if call, isCall := r.(*ast.CallExpr); isCall && isBuiltinCall(info, call, "len") {
+				return true
+			}
+			if id, isID := r.(*ast.Ident); isID {
+				if v, isVar := info.Uses[id].(*types.Var); isVar && !v.IsField() && !reassigned(f.Root(), v) {
+					if d := localDef(f.Root(), info, v); d != nil {
+						if se, isSel := ast.Unparen(d).(*ast.SelectorExpr); isSel && core.FieldOf(info, se) == fv {
+							return true
+						}
+					}
+				}
+			}
+			return false
+		}
+		f.OwnNodes(func(n ast.Node) bool {
+			switch x := n.(type) {
+			case *ast.AssignStmt:
+				for i, l := range x.Lhs {
+					fv := core.FieldOf(info, l)
+					if fv == nil || !isIntegerType(fv.Type()) {
+						continue
+					}
+					writes[fv]++
+					if x.Tok != token.ASSIGN || len(x.Lhs) != len(x.Rhs) || !okRHS(fv, x.Rhs[i]) {
+						bad[fv] = true
+					}
+				}
+			case *ast.IncDecStmt:
+				if fv := core.FieldOf(info, x.X); fv != nil {
+					writes[fv]++
+					bad[fv] = true
+				}
+			case *ast.UnaryExpr:
+				if x.Op == token.AND {
+					if fv := core.FieldOf(info, x.X); fv != nil {
+						bad[fv] = true
+					}
+				}
+			case *ast.KeyValueExpr:
+				if id, ok := x.Key.(*ast.Ident); ok {
+					if fv, isVar := info.Uses[id].(*types.Var); isVar && fv.IsField() && isIntegerType(fv.Type()) {
+						writes[fv]++
+						if !okRHS(fv, x.Value) {
+							bad[fv] = true
+						}
+					}
+				}
+			}
+			return true
+		})
+	}
+	out := map[*types.Var]bool{}
+	for v, n := range writes {
+		if n > 0 && !bad[v] && !v.Exported() {
+			out[v] = true
+		}
+	}
+	return out
+}
